@@ -9,8 +9,15 @@
    xxx_refuted: the pinned mirror misses the specification on this input. *)
 From Ferret Require Import Value Compare StdArrays StdObjects StdMath.
 From Ferret Require Import Proofs.CompareProofs Proofs.StdArraysProofs Proofs.StdObjectsProofs Proofs.StdMathProofs.
+From Ferret Require Import Check.C16 Proofs.StdCheckProofs.
 From Coq Require Import QArith.
 Open Scope Z_scope.
+
+(* ---------------- the verdict comparator of the correspondence check is sound:
+   an observation accepted by Check/C16.v [agree] satisfies the specification *)
+Theorem check_comparator_sound : forall o s, agree o s = true -> meets o s.
+Proof. exact agree_sound. Qed.
+Print Assumptions check_comparator_sound.
 
 (* ---------------- set-valued array functions *)
 Theorem union_meets_spec : forall args, meets (m_union args) (s_union args).
